@@ -23,6 +23,13 @@ Verdict (VIOLATION) comes only from the predicates evaluated on real outcomes:
      every entry;
   P6 no reply token is delivered twice to a session.
 Differences to the implementation-level model that keep P1..P6 are DRIFT.
+
+Role dimension (Retry.tla Roles / LineKinds): the primary session is an
+unregistered session, a registered client, an IRC operator or an authenticated
+services link (config with operator + services password; PASS services=...,
+SERVER ..., pseudo-client lines); every concrete message kind of every role --
+including the lines that CHANGE the role (USER, OPER, SERVER) -- is retried at
+least once per run (else exit 2).
 """
 import json
 import os
@@ -142,10 +149,12 @@ PRELUDE = {
 LINES = {
     "unreg": {"ping": "PING :tok{k}", "nick": "NICK un{k}", "user": "USER un{k} 0 * :tok{k}", "quit": "QUIT :bye{k}"},
     "client": {"privmsg": "PRIVMSG bob :tok{k}", "join": "JOIN #ch{k}", "ping": "PING :tok{k}", "nick": "NICK al{k}",
-               "quit": "QUIT :bye{k}"},
+               "oper": "OPER op oppw", "quit": "QUIT :bye{k}"},   # "oper": the line that changes the role
     "oper": {"privmsg": "PRIVMSG bob :tok{k}", "kill": "KILL dsp{d} :tok{k}", "mode": "MODE alice +i", "quit": "QUIT :bye{k}"},
     "services": {"snick": "NICK Sv{k} 1 1 sv h s 0 +o :tok{k}", "sprivmsg": ":ChanServ PRIVMSG bob :tok{k}",
-                 "sjoin": ":ChanServ JOIN #sv{k}", "skill": ":ChanServ KILL dsp{d} :tok{k}", "squit": "QUIT :bye{k}"},
+                 "sjoin": ":ChanServ JOIN #sv{k}", "skill": ":ChanServ KILL dsp{d} :tok{k}", "squit": "QUIT :bye{k}",
+                 # late handshake: the prelude stops after PASS, the first request IS the SERVER line
+                 "server": "SERVER services.rig 1 :Services for the rig"},
 }
 QUIT_KIND = {"unreg": "quit", "client": "quit", "oper": "quit", "services": "squit"}
 
@@ -158,8 +167,18 @@ class Kinds:
         self.n = {}
         self.retried = set()
 
+    def late(self, b):
+        """every other services behaviour whose first request is a retried
+        ordinary message completes the handshake with that request"""
+        first = next((k for k, h in enumerate(b) if h["a"] in ("Post", "Death")), None)
+        if b[0]["role"] != "services" or first is None or b[first]["a"] != "Post" or b[first]["t"] != "msg" \
+                or not is_retried(b, first):
+            return False
+        self.n["late"] = self.n.get("late", 0) + 1
+        return self.n["late"] % 2 == 1
+
     def pick(self, role, retried):
-        ks = sorted(k for k in LINES[role] if k != QUIT_KIND[role])
+        ks = sorted(k for k in LINES[role] if k not in (QUIT_KIND[role], "server"))
         key = (role, retried)
         i = self.n.get(key, 0)
         self.n[key] = i + 1
@@ -195,10 +214,14 @@ def program(name, b, rnd, kinds):
             steps += [{"op": "create_session", "as": "d%d" % d},
                       {"op": "login", "session": "d%d" % d, "nick": "dsp%d" % d}]
     pre = PRELUDE[role]
+    late = kinds.late(b)
+    if late:
+        pre = pre[:1]
     for n, line in enumerate(pre):
         steps.append({"op": "post", "session": "a", "data": line, "cmid": PRELUDE_USER - (len(pre) - 1 - n)})
-    steps.append({"op": "probe", "tag": {"k": 0, "a": "Init", "role": role}})
+    steps.append({"op": "probe", "tag": {"k": 0, "a": "Init", "role": "link" if late else role}})
     tok = 0
+    nposts = 0
     disp = 0
     last_a = None
     snapshots = 0
@@ -209,8 +232,16 @@ def program(name, b, rnd, kinds):
         tag = {"k": k, "a": a}
         if a == "Post":
             tok += 1
+            nposts += 1
             retried = is_retried(b, k)
-            kind = QUIT_KIND[role] if h["t"] == "quit" else kinds.pick(role, retried)
+            if h["t"] == "quit":
+                kind = QUIT_KIND[role]
+            elif late and nposts == 1:
+                kind = "server"
+            elif late:
+                kind = "snick"      # ChanServ was never introduced in this variant
+            else:
+                kind = kinds.pick(role, retried)
             if "{d}" in LINES[role][kind]:
                 disp += 1
             data = LINES[role][kind].format(k=tok, d=disp)
@@ -307,8 +338,9 @@ def evaluate(ctx, prog, b, recs, trace):
         m1, e1 = markers(post)
         if a == "Init":
             pa = rig_common.sess(post, "a") or {}
-            role = h["role"]
+            role = tag.get("role", h["role"])
             is_role = {"unreg": not pa.get("loggedIn") and not pa.get("server"),
+                       "link": not pa.get("loggedIn") and not pa.get("server") and pa.get("lastCmid") == PRELUDE_USER,
                        "client": pa.get("loggedIn") and not pa.get("operator") and not pa.get("server"),
                        "oper": pa.get("loggedIn") and pa.get("operator"),
                        "services": pa.get("server")}[role]
